@@ -71,6 +71,10 @@ func genC11(seed uint64, i int, tier string) *Scenario {
 		n += r.Range(2, 9)
 	}
 	sc.Init = genStore(r, n, pick(r, []string{StoreMixed, StoreInts, StoreText}))
+	if r.Chance(0.15) {
+		// the empty string is a legal key
+		sc.Init = append([]KV{{"", pick(r, valuePoolText)}}, sc.Init...)
+	}
 	if r.Chance(0.3) {
 		// empty values: a stored empty value is a value, not a missing pair
 		for j := range sc.Init {
@@ -91,6 +95,27 @@ func genC11(seed uint64, i int, tier string) *Scenario {
 			sc.Hist = append(sc.Hist, h)
 		default:
 			sc.Hist = append(sc.Hist, genDeleteStmt(r, cur, b))
+		}
+	}
+	if r.Chance(0.08) && len(cur) >= 2 {
+		// a key listed more than once, not adjacently, under a LIMIT that cuts the
+		// result, at a batch size that puts a batch boundary between the mentions
+		sc.Cfg.Batch = pick(r, []int{1, 1, 2})
+		a, b2, c := cur[r.Intn(len(cur))].K, cur[r.Intn(len(cur))].K, cur[r.Intn(len(cur))].K
+		lists := [][]string{{a, b2, a}, {a, b2, c, a}, {b2, a, c, b2, a}, {a, a, b2}, {c, a, b2, a, c}}
+		ks := pick(r, lists)
+		ok := true
+		for _, k := range ks {
+			if !isASCIIPlain(k) {
+				ok = false
+			}
+		}
+		if ok {
+			h := HistStmt{Kind: "delete", Mode: genMode(r), Pred: "key in " + inList(ks), HasLimit: true, Off: pick(r, []int{0, 0, 1}), Cnt: r.Range(1, 3)}
+			if r.Chance(0.3) {
+				h.Pred += " & value != 'zzz'"
+			}
+			sc.Hist = append(sc.Hist, h)
 		}
 	}
 	// a history always ends with a delete
